@@ -114,24 +114,10 @@ def call_format_field(name, sep_tok, toks, form, rng):
         return type(ex).__name__, str(ex)
 
 
-def generator_pieces(name, sep_tok, toks):
-    """what the stock formatter itself yields, as pieces of the specification (tokens by IDENTITY)"""
-    from debian._deb822_repro.formatter import one_value_per_line_trailing_separator as fmt, FormatterContentToken
-    out = []
-    for y in fmt(name, sep_tok, iter(list(toks))):
-        if isinstance(y, FormatterContentToken):
-            pos = [i for i, t in enumerate(toks) if t is y]
-            if y is sep_tok:
-                out.append(["S"])
-            elif pos:
-                out.append([toks[pos[0]].is_comment and "C" or "V", pos[0] + 1])
-            else:
-                out.append(["?foreign token %r" % (y.text,)])
-        elif isinstance(y, str):
-            out.extend(lex_ws(y))
-        else:
-            out.append(["?%r" % (y,)])
-    return out
+def generator_text(name, sep_tok, toks):
+    """the joined text of what the stock formatter itself yields (str pieces and tokens alike)"""
+    from debian._deb822_repro.formatter import one_value_per_line_trailing_separator as fmt
+    return "".join(str(y) for y in fmt(name, sep_tok, iter(list(toks))))
 
 
 def lex_ws(s):
@@ -384,9 +370,9 @@ def record_call(rng, size):
         again = call_format_field(name, septok, stream.toks, form, rng)
         if again != ("ok", text):
             out = [["?a second identical call answered differently"]]
-        gen = generator_pieces(name, septok, stream.toks)
-        if stream.text_of(name, [g for g in gen if not g[0].startswith("?")], septok.text) != text or any(g[0].startswith("?") for g in gen):
-            out = [["?the formatter itself yields %s" % (clip(repr(gen), 200),)]]
+        gen = generator_text(name, septok, stream.toks)
+        if name + ":" + gen != text:
+            out = [["?the formatter called directly yields another text: %s" % (clip(repr(gen), 200),)]]
     else:
         out = []
     ev = {"form": form, "sep": sep, "nl": nl, "inp": inp2, "res": {"v": res, "out": out}}
